@@ -33,26 +33,41 @@ pub fn term_of(t: &str, syms: &mut SymbolTable) -> Term {
         "y" => Term::Bytes(hex::decode(v).unwrap()),
         "n" => Term::Null,
         "set" => {
+            // set:1 = {1}, set:2 = {1, 2}, set:3 = {2} (same size as set:1, other element)
             let mut s = BTreeSet::new();
-            s.insert(Term::Integer(1));
-            if v == "2" {
+            if v != "3" {
+                s.insert(Term::Integer(1));
+            }
+            if v == "2" || v == "3" {
                 s.insert(Term::Integer(2));
             }
             Term::Set(s)
         }
         "arr" => {
-            let mut a = vec![Term::Integer(1)];
-            if v == "2" {
-                a.push(Term::Str(syms.insert("a")));
+            // arr:1 = [1], arr:2 = [1, "a"], arr:3 = [2] (same length as arr:1), arr:4 = [[1]], arr:5 = [[2]] (differ only at depth 2)
+            match v {
+                "3" => Term::Array(vec![Term::Integer(2)]),
+                "4" => Term::Array(vec![Term::Array(vec![Term::Integer(1)])]),
+                "5" => Term::Array(vec![Term::Array(vec![Term::Integer(2)])]),
+                _ => {
+                    let mut a = vec![Term::Integer(1)];
+                    if v == "2" {
+                        a.push(Term::Str(syms.insert("a")));
+                    }
+                    Term::Array(a)
+                }
             }
-            Term::Array(a)
         }
         "map" => {
             let mut m = BTreeMap::new();
-            if v == "1" {
-                m.insert(MapKey::Str(syms.insert("a")), Term::Integer(1));
-            } else {
-                m.insert(MapKey::Integer(1), Term::Null);
+            // map:1 = {"a": 1}, map:2 = {1: null}, map:3 = {"a": 2} (same key as map:1, other value),
+            // map:4 = {"a": [1]}, map:5 = {"a": [2]} (same key, values differ only inside a nested collection)
+            match v {
+                "1" => { m.insert(MapKey::Str(syms.insert("a")), Term::Integer(1)); }
+                "3" => { m.insert(MapKey::Str(syms.insert("a")), Term::Integer(2)); }
+                "4" => { m.insert(MapKey::Str(syms.insert("a")), Term::Array(vec![Term::Integer(1)])); }
+                "5" => { m.insert(MapKey::Str(syms.insert("a")), Term::Array(vec![Term::Integer(2)])); }
+                _ => { m.insert(MapKey::Integer(1), Term::Null); }
             }
             Term::Map(m)
         }
